@@ -4,6 +4,7 @@ import (
 	"encoding/hex"
 	"fmt"
 	"math/rand"
+	"strconv"
 	"strings"
 	"sync"
 	"sync/atomic"
@@ -25,8 +26,9 @@ type seqSpec struct {
 	workers    int    // nats
 	lockstep   bool
 	restricted bool
-	abort      *request // pipe/tcp: sent on an extra connection that is closed at once, before the reply can be read
-	burst      bool     // probe: all frames of a connection written with one Write
+	watermark  time.Duration // nats: server high watermark, with handlers slow enough to build a backlog older than it
+	abort      *request      // pipe/tcp: sent on an extra connection that is closed at once, before the reply can be read
+	burst      bool          // probe: all frames of a connection written with one Write
 	reqs       []*request
 	perConn    [][]*request
 	sentinel   []*request
@@ -50,7 +52,7 @@ func (s *seqSpec) abortNote() string {
 
 func (s *seqSpec) describe() map[string]interface{} {
 	return map[string]interface{}{"sequence": s.id, "leg": s.leg, "proto": s.proto, "mode": s.mode, "conns": s.conns,
-		"nats_workers": s.workers, "lockstep": s.lockstep, "kinds": s.shape(), "json_stream_restricted": s.restricted,
+		"nats_workers": s.workers, "nats_high_watermark": s.watermark.String(), "lockstep": s.lockstep, "kinds": s.shape(), "json_stream_restricted": s.restricted,
 		"one_write_burst": s.burst, "regenerate": fmt.Sprintf("VERIF_SEED=<seed> ./check C14 <tier> --seq %d (ids >= 1000000 are the fixed probes)", s.id)}
 }
 
@@ -139,6 +141,17 @@ func genSpec(id int, rng *rand.Rand, restrictJSONStream, oversize bool) *seqSpec
 			}
 		}
 	}
+	if v.leg == "nats" && rng.Intn(3) == 0 {
+		// a small high watermark and slow handlers: most requests wait in the
+		// server's queue for longer than the watermark - and are answered
+		s.watermark = time.Duration(1+rng.Intn(3)) * time.Millisecond
+		s.workers = 1 + rng.Intn(2)
+		for _, r := range s.reqs {
+			if v, ok := plans.Load(r.token); ok {
+				v.(*plan).delay = time.Duration(500+rng.Intn(1500)) * time.Microsecond
+			}
+		}
+	}
 	if stream && rng.Intn(2) == 0 {
 		// a client that goes away while its unknown-method request is being
 		// answered: nothing is asserted about that request, everything about
@@ -199,6 +212,18 @@ func (res *seqResult) attribute(conn int, frame []byte, via string) {
 	}
 	r := res.byOpid[hdrs["_opid"]]
 	if r == nil {
+		for _, o := range res.byOpid {
+			if o.opidForm == "" {
+				continue
+			}
+			if v, err := strconv.ParseUint(strings.TrimSpace(o.opid), 10, 64); err == nil && strconv.FormatUint(v, 10) == hdrs["_opid"] {
+				res.addStray(conn, fmt.Sprintf("op id rewritten: the request carried _opid %q, the reply carries %q", o.opid, hdrs["_opid"]), frame)
+				o.mu.Lock()
+				o.rewritten = true
+				o.mu.Unlock()
+				return
+			}
+		}
 		res.addStray(conn, fmt.Sprintf("reply carries op id %q which no request of this sequence has", hdrs["_opid"]), frame)
 		return
 	}
@@ -533,7 +558,7 @@ func runSequence(s *seqSpec, broker *rig.NatsServer) *seqResult {
 		wg.Wait()
 		leg.stop()
 	case "nats":
-		leg, err := startNatsLeg(broker, s.proto, uint(s.workers))
+		leg, err := startNatsLeg(broker, s.proto, uint(s.workers), s.watermark)
 		if err != nil {
 			res.inconc("cannot start nats leg: " + err.Error())
 			return res
@@ -686,6 +711,9 @@ func judge(run verdictSink, s *seqSpec, res *seqResult) {
 	}
 	for _, st := range res.strays {
 		sig := "C14:reply-unattributable:" + s.leg + ":" + s.proto
+		if strings.HasPrefix(st.reason, "op id rewritten") {
+			sig = "C14:reply-opid-rewritten:" + s.leg
+		}
 		if s.leg == "http" && strings.Contains(st.reason, "of this sequence") {
 			sig = "C14:http-response-holds-another-requests-reply:" + s.proto
 		}
@@ -755,6 +783,10 @@ func judge(run verdictSink, s *seqSpec, res *seqResult) {
 		}
 		if how == "idle" {
 			sig, how2 = "C14:request-consumed-without-reply:", "consumed everything sent on connection %d and is parked waiting for the size prefix of a next frame (two goroutine dumps 1.5 s apart, no reply in between; a simple server works a connection off sequentially)"
+		}
+		if next != nil && next.opidForm != "" {
+			run.Violation("C14:request-with-"+next.opidForm+"-opid-unanswered:"+s.leg, fmt.Sprintf("the server "+how2+"; the first unanswered request (%s) has the _opid header value %q (a decodable header); %d two-way requests never answered", c, nk, next.opid, unanswered), witness(next, map[string]interface{}{"connection": c}))
+			continue
 		}
 		if next != nil && next.hdrShape != "plain" && !next.taints {
 			sig, after = "C14:request-with-"+next.hdrShape+"-header-unanswered:", "-"
@@ -828,7 +860,7 @@ func judge(run verdictSink, s *seqSpec, res *seqResult) {
 		run.Add("requests_judged", 1)
 		n := r.replyCount()
 		closedWhy, connClosed := res.closed[r.conn]
-		if r.foreign {
+		if r.foreign || r.rewritten {
 			continue // reported with the frame it received
 		}
 		if r.kind == kHTTPOverLimit {
@@ -839,7 +871,9 @@ func judge(run verdictSink, s *seqSpec, res *seqResult) {
 			continue
 		}
 		if r.sendErr != "" {
-			if s.leg == "http" && r.hdrShape != "plain" && r.httpStatus >= 500 {
+			if s.leg == "http" && r.opidForm != "" && r.httpStatus >= 500 {
+				run.Violation("C14:request-with-"+r.opidForm+"-opid-refused:"+s.leg, fmt.Sprintf("a request whose _opid header value is %q (a decodable header) was answered with a transport-level failure instead of a reply frame: %s", r.opid, r.sendErr), witness(r, nil))
+			} else if s.leg == "http" && r.hdrShape != "plain" && r.httpStatus >= 500 {
 				run.Violation("C14:request-with-"+r.hdrShape+"-header-refused:"+s.leg, "a request whose (well-formed) header block has the shape \""+r.hdrShape+"\" was answered with a transport-level failure instead of a reply frame: "+r.sendErr, witness(r, nil))
 			} else if s.leg == "http" {
 				run.Violation("C14:transport-error:"+s.leg+":"+r.kindName(), "instead of a reply frame the server answered with a transport-level failure: "+r.sendErr, witness(r, nil))
@@ -873,6 +907,14 @@ func judge(run verdictSink, s *seqSpec, res *seqResult) {
 				}
 				if s.leg == "http" && r.empties > 0 {
 					what += "; the HTTP response was the empty frame"
+				}
+				if n == 0 && r.opidForm != "" {
+					run.Violation("C14:request-with-"+r.opidForm+"-opid-unanswered:"+s.leg, fmt.Sprintf("a request whose _opid header value is %q (a decodable header): ", r.opid)+what, witness(r, nil))
+					break
+				}
+				if n == 0 && s.watermark > 0 {
+					run.Violation("C14:backlogged-request-unanswered:"+s.leg, fmt.Sprintf("NATS server with %d worker(s), high watermark %v and handlers slow enough for requests to queue longer than that: ", s.workers, s.watermark)+what, witness(r, nil))
+					break
 				}
 				if n == 0 && r.hdrShape != "plain" && !r.taints {
 					run.Violation("C14:request-with-"+r.hdrShape+"-header-unanswered:"+s.leg, "a request whose (well-formed) header block has the shape \""+r.hdrShape+"\": "+what, witness(r, nil))
